@@ -139,6 +139,17 @@ CLAIMED = {
    note="Trusted: the Python-subset semantics and jnp/lax models of vf/pyvc.py (mathematical integers + explicit int32 "
         "obligations; XLA clamping of dynamic_slice), the assumed contract of jax.random.choice (permutation; zero-probability "
         "rows last) and jax.random.split, the iteration rule, z3. Array rank (dim 1..2) is concrete."),
+ "C14": dict(
+   engine="pyvc",
+   text="make_cartesian_product: shape (n1*n2, d1+d2[, F]) and row i*n2+j == (b1[i], b2[j]) for all i < n1, j < n2 with n1, n2 "
+        "symbolic (time-major), (i,j) -> i*n2+j a bijection onto [0, n1*n2) (so every pair exactly once); "
+        "CubicMeshPDENonStatio.get_batch: interior and every facet of the border are that product with the cartesian option "
+        "(and in 1-D), the row-wise pairing (t_i, x_i) otherwise; column 0 is time. All batch sizes symbolic.",
+   technique="contract-based deductive verification: source-level VC generation (ast symbolic executor, arrays as index "
+             "transformations, symbolic sizes) discharged by z3; callees replaced by their C09 contracts",
+   design_ref="DESIGN.md §5 C14",
+   note="Trusted: Python-subset semantics and jnp models (repeat/tile/concatenate/reshape) of vf/pyvc.py, z3 non-linear integer "
+        "arithmetic. Dimension 1..2 (rank / column count are concrete)."),
 }
 PENDING_REASON = "check not built yet (framework under construction); will be claimed once its contracts verify"
 NA = {}
